@@ -20,7 +20,7 @@ Decided - necessary conditions, each breakable while every test still passes:
 from mpmath import mp, mpf
 
 from .. import ctx
-from ..equiv import has_unknown
+from ..equiv import final_state, has_unknown
 from ..harness import Ctx, FFT64
 from ..linform import NotLinear, PolyForms
 from ..report import Report
@@ -266,6 +266,133 @@ def precision(L, G, R):
     return len(reach)
 
 
+def _depth(v, memo):
+    """largest number of floating-point roundings on a path from an input to this value (fma counted twice)"""
+    if not isinstance(v, Sym):
+        return 0
+    r = memo.get(v)
+    if r is not None:
+        return r
+    e = v.e
+    op = e[0]
+    ch = [x for x in e[1:] if isinstance(x, Sym)]
+    d = max([_depth(x, memo) for x in ch] or [0])
+    if op in ('fadd', 'fsub', 'fmul', 'fdiv'):
+        d += 1
+    elif op == 'fma':
+        d += 2
+    elif op not in ('in', 'fneg', 'xor'):
+        d = 10 ** 6          # anything else in the product kernel: no bound
+    memo[v] = d
+    return d
+
+
+def error_budget(L, R, tier):
+    """B: the a-priori error bound of the product pipelines against the stated E.
+
+    With rho_f, rho_i the a-priori norm-wise bounds of the forward / inverse transform of size m = N/2 (E7, C06 clause E, the
+    very functions the module's tables dispatch to), A = fft(a), B = fft(b) (|A_j| <= |a|_1, ||A||_2 = sqrt(m) ||a||_2 since the
+    packed transform evaluates a at half of the odd roots of unity), the pointwise product with at most d roundings per path
+    (||delta||_2 <= sqrt(2) gamma_d ||A.B||_2), and ||c||_2 <= (|a|_1 ||b||_2 + ||a||_2 |b|_1) / 2 for the exact product c:
+        |result_k - c_k| <= [ rho_f (1 + rho_i) + (sqrt(2) gamma_d + rho_i)(1 + rho_f) / 2 ] (|a|_1 ||b||_2 + ||a||_2 |b|_1)  (+ 1/2)
+    before the final rounding to the nearest integer (C14: within 1/2 on the whole 2^52 window; the int64 -> double conversion is
+    exact below 2^50).  The bracket is compared with 8*log2(N)*2^-53."""
+    from concurrent.futures import ProcessPoolExecutor
+    from math import log2, sqrt
+    from ..kernels import KERNELS, KBox
+    from .C06 import _error_bound_job
+    from ..apicheck import ApiBox, shapes_for
+    Ns = [4, 8, 16, 32, 128, 512, 2048] if tier == 'quick' else [4, 8, 16, 32, 64, 128, 256, 512, 1024, 2048, 4096]
+    jobs = [(nm, N // 2, 'generic') for N in Ns for nm in ('reim_fft', 'reim_ifft')] + \
+           [(nm, N // 2, 'accel') for N in Ns if N <= 16 for nm in ('reim_fft', 'reim_ifft')]
+    with ProcessPoolExecutor(max_workers=min(12, len(jobs))) as ex:
+        res = dict(zip(jobs, ex.map(_error_bound_job, jobs)))
+    # the pointwise product kernels
+    K = KERNELS('quick')
+    kb = KBox(L)
+    dmul = {}
+    for cpu in ('generic', 'accel'):
+        d = 0
+        for nm in ('reim_fftvec_mul', 'reim_fftvec_addmul'):
+            for sh in [s_ for s_ in K[nm]['dom'] if s_.get('m') in (2, 4, 8)]:
+                try:
+                    r = kb.instantiate(nm, K[nm], sh, cpu, expand='values')
+                except (Unsupported, NeedEnum) as e:
+                    R.broke('%s %s: %s' % (nm, sh, e))
+                    continue
+                memo = {}
+                for bn, st in final_state(r, ('out',)).items():
+                    for off, (sz, v) in st.items():
+                        d = max(d, _depth(v, memo))
+        dmul[cpu] = d
+    # the pipelines consist of two forward transforms, one pointwise product, one inverse transform and the two conversions
+    box = ApiBox(L)
+    names = set(FAMILIES)
+    comp_bad = None
+    for cpu in ('generic', 'accel'):
+        for N in (8, 32):
+            got = {}
+            for fn_, sh in (('znx_small_single_product', {'N': N}),
+                            ('svp_prepare', {'N': N}),
+                            ('svp_apply_dft', {'N': N, 'res_size': 1, 'a_size': 1, 'a_sl': N}),
+                            ('vec_znx_idft_tmp_a', {'N': N, 'res_size': 1, 'a_size': 1})):
+                c = box.get(N, FFT64, cpu, True)
+                c.m.trace_names = names
+                c.m.trace = []
+                try:
+                    box.instantiate(fn_, sh, cpu, FFT64, expand=True)
+                except (Unsupported, NeedEnum) as e:
+                    R.broke('%s %s: %s' % (fn_, sh, e))
+                finally:
+                    tr = c.m.trace
+                    c.m.trace_names = set()
+                cnt = {}
+                for (f_, args, stack) in tr:
+                    cnt[f_] = cnt.get(f_, 0) + 1
+                got[fn_] = cnt
+            want_small = {'reim_from_znx64': 2, 'reim_fft': 2, 'reim_fftvec_mul': 1, 'reim_ifft': 1, 'reim_to_znx64': 1}
+            svp = {}
+            for k_ in ('svp_prepare', 'svp_apply_dft', 'vec_znx_idft_tmp_a'):
+                for f_, n_ in got.get(k_, {}).items():
+                    svp[f_] = svp.get(f_, 0) + n_
+            for label, cnt in (('znx_small_single_product', got.get('znx_small_single_product', {})), ('svp pipeline', svp)):
+                if cnt != want_small:
+                    comp_bad = comp_bad or '%s at N=%d [%s] runs %s, expected %s' % (label, N, cpu, cnt, want_small)
+    for cpu in ('generic', 'accel'):
+        worst = None
+        unk = None
+        done = []
+        for N in Ns:
+            if cpu == 'accel' and N > 16:
+                continue
+            rf, ri = res[('reim_fft', N // 2, cpu)], res[('reim_ifft', N // 2, cpu)]
+            if rf[0] != 'ok' or ri[0] != 'ok':
+                unk = unk or 'N=%d: transform bound not established (%s)' % (N, (rf if rf[0] != 'ok' else ri)[1])
+                continue
+            u = 2.0 ** -53
+            d = dmul[cpu]
+            if d > 8:
+                unk = unk or 'pointwise product kernel outside the rounding model'
+                continue
+            gm = d / (1 - d * u)
+            total = rf[1] * (1 + ri[1] * u) + (sqrt(2) * gm + ri[1]) * (1 + rf[1] * u) / 2
+            stated = 8 * log2(N)
+            done.append(N)
+            R.extra.setdefault('error_budget', {})['N=%d [%s]' % (N, cpu)] = {'proved_in_u': round(total, 2), 'stated_in_u': stated}
+            if total > stated and (worst is None or total / stated > worst[1] / worst[2]):
+                worst = (N, total, stated)
+        subj = 'FFT64 product pipelines [%s]' % cpu
+        if comp_bad:
+            R.ob('a-priori-product-error-within-the-stated-E', subj, 'unknown', detail=comp_bad)
+        elif unk or worst:
+            R.ob('a-priori-product-error-within-the-stated-E', subj, 'unknown',
+                 detail=unk or 'N=%d: the provable bound is %.1f u, the stated bound is %.1f u' % worst)
+        else:
+            R.ob('a-priori-product-error-within-the-stated-E', subj, 'holds',
+                 detail='N in %s; product kernels round at most %d times per path' % (done, dmul[cpu]))
+    return len(jobs)
+
+
 def run(tier):
     R = Report('C01', tier)
     L, G = ctx.lib(), ctx.cg()
@@ -273,13 +400,16 @@ def run(tier):
     n2 = wiring(L, R, tier)
     zero_rows(L, R, tier)
     n3 = precision(L, G, R)
+    n4 = error_budget(L, R, tier)
+    R.floor('transform error bounds used for the product budget', n4, 14)
     R.evaluations = n1 + n2
     R.floor('bilinear coefficients compared with the negacyclic product', n1, 8000)
     R.floor('transform call sites traced', n2, 150)
     R.floor('functions in the FFT64 call tree', n3, 80)
     R.rules.append('evaluation = one coefficient of the bilinear form or one traced call site')
     R.assumptions += ['coefficients are those of the reference data path read over the reals with the stored twiddles; the '
-                      'floating-point error of the data path (bound E) is not decided',
+                      'floating-point error bound E: established a priori (clause B) for N <= 2048 (thorough 4096) on the reference path '
+                      'and N <= 16 on the AVX path; for larger N the provable bound exceeds the stated one (not decided)',
                       'composition shown for N <= 16 (quick) / 32 (thorough); accelerated kernels are tied to the reference by C07']
     return R.finish('E4 bilinear forms of the product pipelines against the negacyclic product; instantiated module tables and '
                     'traced transform call sites; E4 support sets for zero rows; type scan for single precision.')
